@@ -340,7 +340,7 @@ def run(tier: str) -> int:
               "every row order; random: popgen structures up to 40 persons with 6 orders; oracle = "
               "connected components of the unit definitions; T2: exact ids model vs code on valid and "
               "invalid structures. distinct = distinct (structure, order).")
-    common.build_and_audit(r, ["C12"], leanchecker=not quick)
+    common.build_and_audit(r, ["C12", "C12Cor"], leanchecker=not quick)
     rnd = common.rng("C12")
     cases, fg_ops = t2_cases(rnd, 120 if quick else 3000)
     corr.run_cases(r, "eg/ehe/sn/bg/wthh id constructors vs Core/Groupings.lean", cases)
